@@ -142,7 +142,9 @@ pub(crate) fn read_escaped_string(
                     'z' => {
                         while chars
                             .peek()
-                            .filter(|(_, char)| char.is_ascii_whitespace())
+                            // the vertical tab is a space for Lua (`isspace`) but not for
+                            // `is_ascii_whitespace`
+                            .filter(|(_, char)| char.is_ascii_whitespace() || *char == '\u{B}')
                             .is_some()
                         {
                             chars.next();
